@@ -432,14 +432,23 @@ pub fn def() -> CheckDef {
     CheckDef {
         property: "C12",
         level: "exploration",
-        rule: "(1) seeded scripted probe rounds on a real instance with 1..6 members and fan-out 1..3: per round 0..3 events before and after the indirect-probe timer drawn from {Ack from the target / another member / a stranger, ForwardedAck from an asked helper / unasked member / stranger, each with the current, previous or next probe number and with the right or a wrong origin; target declared Down, renamed, learnt at a higher incarnation or suspected by gossip; a member joining; identity change; everybody down, forgotten and back}, late Acks delivered after the next round started; oracle at the indirect timer (PingReq only if warranted, to min(k, others) distinct active members, never the target) and at the next probe timer (suspicion + exactly one timeout iff no genuine evidence, no abort, target unchanged); (2) seeded clusters of 3..8 real instances with one directed link cut for 4n+4 probe periods: the relay must absorb it, with the relay monitor (reply/relay preserves origin, target, probe number; requests naming the receiver are rejected) on every call of every node (that monitor also runs in every other scenario); evaluations = probe rounds / runs; non-trivial = a round was scripted / a ForwardedAck was sent; distinct = abstracted event log",
+        rule: "(1) seeded scripted probe rounds on a real instance with 1..6 members and fan-out 1..3: per round 0..3 events before and after the indirect-probe timer drawn from {Ack from the target / another member / a stranger, ForwardedAck from an asked helper / unasked member / stranger, each with the current, previous or next probe number and with the right or a wrong origin; target declared Down, renamed, learnt at a higher incarnation or suspected by gossip; a member joining; identity change; everybody down, forgotten and back}, late Acks delivered after the next round started; oracle at the indirect timer (PingReq only if warranted, to min(k, others) distinct active members, never the target) and at the next probe timer (suspicion + exactly one timeout iff no genuine evidence, no abort, target unchanged); (3) the reply/relay monitor (every incoming Ping, PingReq, IndirectPing, IndirectAck must produce exactly the reply or relay the protocol prescribes, with origin, target and probe number preserved; requests naming the instance itself must be rejected and not relayed) on the shared seeded adversarial histories, the chaos pool and the exhaustive depth-3/4 histories; (2) seeded clusters of 3..8 real instances with one directed link cut for 4n+4 probe periods: the relay must absorb it, with the relay monitor (reply/relay preserves origin, target, probe number; requests naming the receiver are rejected) on every call of every node (that monitor also runs in every other scenario); evaluations = probe rounds / runs; non-trivial = a round was scripted / a ForwardedAck was sent; distinct = abstracted event log",
         assumptions: vec![
             "scenario (1): peers are stubs scripted by the simulator (stated as such); scenario (2): every hop is a real instance".into(),
             "genuine evidence = Ack from the probed identity with the current number, or ForwardedAck with the current number from a member asked in this round (the origin field is not part of the definition, as in the statement)".into(),
         ],
         real_components: "(1) one real Foca instance; (2) 3..8 real instances on the simulated network",
         stub_components: "(1) all peers; (2) network and clock",
-        batches: vec![Batch { scenario: &Rounds, quick: 80_000, thorough: 3_000_000 }, Batch { scenario: &Chain, quick: 3_000, thorough: 100_000 }],
+        batches: vec![
+            Batch { scenario: &Rounds, quick: 80_000, thorough: 3_000_000 },
+            Batch { scenario: &Chain, quick: 3_000, thorough: 100_000 },
+            // the reply/relay clauses (Ping -> Ack of the same number, PingReq -> IndirectPing -> IndirectAck ->
+            // ForwardedAck preserving origin, target and number, requests naming the instance itself rejected)
+            // are also monitored on every call of the shared history, chaos-pool and exhaustive batches
+            Batch { scenario: &crate::checks::histchecks::H12, quick: 40_000, thorough: 3_000_000 },
+            Batch { scenario: crate::checks::histchecks::chaos_for("C12"), quick: 2_000, thorough: 150_000 },
+            Batch { scenario: crate::checks::histchecks::exhaustive_for("C12"), quick: 0, thorough: 0 },
+        ],
         extra: None,
     }
 }
